@@ -203,7 +203,7 @@ Relation(g, e, X) ==
 
     \* identical inputs (values, parameters, arguments) => identical outputs      [C14, C20, C19]
     [] role = "same" ->
-         IF ~(b.op = e.op /\ ArgsErased(b) = ArgsErased(e) /\ (b.op \in {"hash", "api"} \/ ModelParams(b.model) = ModelParams(e.model)))
+         IF ~(b.op = e.op /\ ArgsErased(b) = ArgsErased(e) /\ (b.op \in {"hash", "api"} \/ ModelParams(b.model0) = ModelParams(e.model0)))
            THEN {"bind.group_same_inputs_differ"}
          ELSE IF OutErased(b) = OutErased(e) THEN {} ELSE {GP(e, "same_inputs_different_result")}
 
